@@ -260,6 +260,50 @@ theorem stepCore_map_ok (hE : E.Pure) (hs : SysRep sys ls) (hb : Benign sys.w) (
       exact ⟨sys', rfl, h2, h3⟩
   | _ => exact hreg _ hop hside
 
+/-- **`sets[i].extend(sets[j])`** (`j ≠ i`, the set `j` moved in) computes the list-level meaning:
+    the destination is the fold of single inserts of the source's keys in the order the consuming
+    iterator yields them (last first); the source is empty afterwards; when a new key finds the
+    destination full, the overflow panic of the profile, with what went in so far kept and the
+    source emptied all the same. -/
+theorem extendFrom_ok (hE : E.Pure) (hs : SysRep sys ls) (hb : Benign sys.w) (i j : Nat) :
+    SysOK
+      (if FromIter.overflowAt E.toUnit (ls.sets i).cap (ls.sets i).l (ls.sets j).l.reverse = none then
+        .ok .unit ((ls.setSet j ⟨(ls.sets j).cap, []⟩).setSet i
+          ⟨(ls.sets i).cap, FromIter.foldInsert E.toUnit (ls.sets i).l (ls.sets j).l.reverse⟩)
+      else
+        .panic (fullPanic ls.profile) ((ls.setSet j ⟨(ls.sets j).cap, []⟩).setSet i
+          ⟨(ls.sets i).cap, FromIter.foldInsert E.toUnit (ls.sets i).l
+            ((ls.sets j).l.reverse.take
+              ((FromIter.overflowAt E.toUnit (ls.sets i).cap (ls.sets i).l (ls.sets j).l.reverse).getD 0))⟩))
+      (match extendFrom E sys i j with
+        | .ok _ s => .ok .unit s | .panic c s => .panic c s | .ub => .ub) := by
+  have hF : E.toUnit.Pure := Env.Pure.toUnit hE
+  have hloop := extendFromLoop_ok E.toUnit hF (prof := ls.profile) (capS := (ls.sets j).cap)
+    (capD := (ls.sets i).cap) ((sys.sets j).len + 1) (ls.sets j).l (ls.sets i).l (sys.sets j)
+    ⟨sys.sets i, sys.w.toUnit⟩ (by rw [(hs.2.1 j).1.1]; omega) (hs.2.1 j).1 (hs.2.1 j).2 (ctx_set hs hb i)
+  unfold XOK at hloop
+  unfold extendFrom
+  split at hloop
+  · rename_i hov
+    rw [if_pos hov]
+    obtain ⟨x, hx, hr0, hc0, hcd⟩ := hloop
+    rw [hx]
+    have hcs : Ctx ls.profile (ls.sets j).cap ([] : List (K × Unit)) (⟨x.1, x.2.w⟩ : St K Unit Q) :=
+      ⟨hr0, hc0, hcd.benign, hcd.prof⟩
+    obtain ⟨s4, h4, hc4⟩ := dropAndRenew_ret E.toUnit hcs
+    simp only
+    rw [h4]
+    refine ⟨extendFin sys i j s4.r x.2.r s4.w, rfl, ?_, ⟨hc4.benign.1, hc4.benign.2⟩⟩
+    exact (hs.setSet j (w := sys.w) hc4.rep hc4.cap hs.2.2).setSet i (w := sys.w.mergeUnit s4.w)
+      hcd.rep hcd.cap hc4.prof
+  · rename_i hov
+    rw [if_neg hov]
+    obtain ⟨x, hx, hr0, hc0, hcd⟩ := hloop
+    rw [hx]
+    refine ⟨extendFin sys i j x.1 x.2.r x.2.w, rfl, ?_, ⟨hcd.benign.1, hcd.benign.2⟩⟩
+    exact (hs.setSet j (w := sys.w) hr0 hc0 hs.2.2).setSet i (w := sys.w.mergeUnit x.2.w)
+      hcd.rep hcd.cap hcd.prof
+
 theorem stepCore_set_ok (hE : E.Pure) (hs : SysRep sys ls) (hb : Benign sys.w) (reg : Nat)
     (sop : SetOp K Q) (hside : Op.SideOK E (.set reg sop)) :
     SysOK (lstepCore E R ls (.set reg sop)) (stepCore E R sys (.set reg sop)) := by
@@ -337,6 +381,13 @@ theorem stepCore_set_ok (hE : E.Pure) (hs : SysRep sys ls) (hb : Benign sys.w) (
     obtain ⟨sys', h1, h2, h3⟩ := assignSet_some hs E dst _ hbuild
     rw [h1]
     exact ⟨sys', rfl, h2, h3⟩
+  | extend_from o =>
+    simp only [stepCore, lstepCore]
+    by_cases ho : o = reg
+    · rw [if_pos ho, if_pos ho]
+      exact ⟨sys, rfl, hs, hb⟩
+    · rw [if_neg ho, if_neg ho]
+      exact extendFrom_ok E hE hs hb reg o
   | _ => exact hdef hside
 
 theorem stepCore_umap_ok (hE : E.Pure) (hs : SysRep sys ls) (hb : Benign sys.w) (reg : Nat)
